@@ -97,11 +97,22 @@ def uninstall():
     wf.mmap = real_mmap
 
 
+def do_read(obj, k):
+    """one access: obj[k], or ["iter", n] = the first n items of a fresh iteration, or ["slice", a, b] = obj[a:b]"""
+    if isinstance(k, list):
+        if k[0] == "iter":
+            import itertools
+            return list(itertools.islice(iter(obj), k[1]))
+        if k[0] == "slice":
+            return obj[k[1]:k[2]]
+    return obj[k]
+
+
 def _body(gate, obj, prog, after_first=None):
     out = []
     for n, k in enumerate(prog):
         try:
-            out.append(obj[k])
+            out.append(do_read(obj, k))
         except Exception as e:  # noqa
             out.append("EXC:" + repr(e))
         if n == 0 and after_first is not None:
@@ -160,13 +171,13 @@ def run(make_obj, progs, schedule, parent_prog=None, parent_first_key=None, gran
                         # first read, then fork the grandchild, then the rest
                         out = []
                         try:
-                            out.append(obj[prog[0]])
+                            out.append(do_read(obj, prog[0]))
                         except Exception as e:  # noqa
                             out.append("EXC:" + repr(e))
                         fork_grand(obj)
                         for k in prog[1:]:
                             try:
-                                out.append(obj[k])
+                                out.append(do_read(obj, k))
                             except Exception as e:  # noqa
                                 out.append("EXC:" + repr(e))
                         os.write(g.w_res, json.dumps(out).encode() + b"\n")
@@ -249,3 +260,32 @@ def run(make_obj, progs, schedule, parent_prog=None, parent_first_key=None, gran
         if grand is not None and ggate is not None:
             ggate.close()
         uninstall()
+
+
+def drive(parts, schedule):
+    """the controller loop for participants that all exist from the start: grants single steps until everyone is done"""
+    state = {}
+    for i in range(len(parts)):
+        b = _wait(parts[i].r_evt, "initial")
+        state[i] = "done" if b == b"D" else b
+    k = 0
+    trace = []
+    while any(s != "done" for s in state.values()):
+        ready = [i for i, s in state.items() if s != "done"]
+        i = ready[schedule[k] % len(ready)] if k < len(schedule) else ready[k % len(ready)]
+        k += 1
+        trace.append((i, state[i].decode()))
+        os.write(parts[i].w_ctl, b"G")
+        b = _wait(parts[i].r_evt, "after grant")
+        state[i] = "done" if b == b"D" else b
+    return trace
+
+
+def read_result(gate, timeout=60):
+    data = b""
+    while not data.endswith(b"\n"):
+        r, _, _ = select.select([gate.r_res], [], [], timeout)
+        if not r:
+            raise Inconclusive("no result from a participant")
+        data += os.read(gate.r_res, 1 << 20)
+    return json.loads(data)
